@@ -73,6 +73,9 @@ def run(ctx):
     prog_re = lits[0][1] if lits and lits[0][1] is not None else None
     from .entry import rule_entry_record
     rule_entry_record(ctx, facts, "C12-R3")
+    from . import gram
+    gram.literal_text_premises(ctx, ctx.grammar, "C12-G")
+    gram.g18_message_not_key(ctx, ctx.grammar, "C12-G")
     if prog_re is not None:
         c = lits[0][0]
         e = rx.equiv(prog_re, SPEC)
